@@ -59,6 +59,12 @@ where
             return Err(InvalidView);
         }
 
+        // The root of the archive sits at the end of the buffer, a buffer which cannot
+        // hold the root is not a valid message no matter what the checksum says.
+        if data_bytes.len() < mem::size_of::<T::Archived>() {
+            return Err(InvalidView);
+        }
+
         let view = unsafe { rkyv::archived_root::<T>(data_bytes) };
 
         Ok(Self { data, view })
